@@ -16,9 +16,10 @@ LOSSY = ("alloc::string::String::from_utf8_lossy", "alloc::string::String::from_
 SLICE_TRIAGE = {
     "ironplcc::lsp_project::map_label|call:core::str::traits::index#1": "offset is label.location.start of a diagnostic computed by semantic() over the current text of the same Source (R-C11-cache); spans are token byte offsets = char boundaries of that text",
     "ironplcc::lsp_project::map_label|call:core::str::traits::index#2": "same start offset as #1 on both ends",
-    "ironplc_parser::preprocessor::remove_oscat_comment|call:<alloc::string::String as core::ops::index::Index<I>>::index#1": "ends right after an ASCII marker found by find()",
-    "ironplc_parser::preprocessor::remove_oscat_comment|call:<alloc::string::String as core::ops::index::Index<I>>::index#2": "starts at an offset returned by find()",
-    "ironplc_parser::preprocessor::remove_oscat_comment|call:<alloc::string::String as core::ops::index::Index<I>>::index#3": "between the end of one ASCII marker and the start of the next (find() offsets)",
+    "ironplc_parser::preprocessor::remove_oscat_comment|call:core::str::traits::index#1": "starts at the end of the start marker that find() located in this text (position + marker length; R-C14-samestr)",
+    "ironplc_parser::preprocessor::remove_oscat_comment|call:core::str::traits::index#2": "ends at that same offset",
+    "ironplc_parser::preprocessor::remove_oscat_comment|call:core::str::traits::index#3": "from the end of the start marker to the start of the end marker found in the rest of this text",
+    "ironplc_parser::preprocessor::remove_oscat_comment|call:core::str::traits::index#4": "starts at the end of the end marker (position + marker length)",
 }
 
 
@@ -229,8 +230,32 @@ def rule_samestr(ctx, rep, rid="R-C14-samestr"):
             tgt = _str_root(b, c.args[0])
             inst = "%s|index#%d" % (norm(b.id), k)
             bad = []
+
+            def same_text(op_):
+                """the operand is the sliced string or a part of it (`s[a..]`): offsets in a part, moved by where the part starts, are
+                offsets in the whole"""
+                if _str_root(b, op_) == tgt:
+                    return True
+                p_ = op_place(op_)
+                for _ in range(3):
+                    if p_ is None:
+                        return False
+                    d_ = b.single_def(b.root(p_)[0])
+                    if d_ and d_[0] == "call" and ((d_[2].callee or "") == "core::str::traits::index" or (d_[2].callee or "").startswith("<alloc::string::String as core::ops::index::Index")) and d_[2].args:
+                        if _str_root(b, d_[2].args[0]) == tgt:
+                            return True
+                        p_ = op_place(d_[2].args[0])
+                        continue
+                    return False
+                return False
+            # the needles of the searches in this very text: position + needle.len() is where the match ends, a boundary of the text
+            needles = {_str_root(b, cc.args[1]) for bb, cc in searched if (cc.callee or cc.u or "").split("::")[-1] in ("find", "rfind") and len(cc.args) > 1 and same_text(cc.args[0])}
             for bb, cc in searched:
                 src = _str_root(b, cc.args[0]) if cc.args else None
+                if cc.args and same_text(cc.args[0]):
+                    continue
+                if (cc.callee or cc.u or "").split("::")[-1] == "len" and src is not None and src in needles:
+                    continue
                 if src != tgt:
                     bad.append("%s() at line %d ran on %s, the slice cuts %s" % ((cc.callee or cc.u).split("::")[-1], cc.loc[0],
                                                                                  _nm(b, src), _nm(b, tgt)))
